@@ -70,7 +70,8 @@ func containsSync(n ast.Node) bool {
 }
 
 // describeSync names the first synchronisation operation of node n (not descending into function literals): "go", "send",
-// "select", "recv", "close" or the method name of a call ("Lock", "Wait", "Err", ...).  It is written to points.txt so that a
+// "select", "recv", "close" or the method name of a call ("Lock", "Wait", "Err", ...), followed by the callee expression
+// ("b.mutex.Lock") or "-".  It is written to points.txt so that a
 // harness can find a point by what it does rather than by its line.
 func describeSync(n ast.Node) string {
 	what := ""
@@ -95,11 +96,11 @@ func describeSync(n ast.Node) string {
 			switch f := v.Fun.(type) {
 			case *ast.SelectorExpr:
 				if syncNames[f.Sel.Name] {
-					what = f.Sel.Name
+					what = f.Sel.Name + " " + exprText(f)
 				}
 			case *ast.Ident:
 				if f.Name == "close" {
-					what = "close"
+					what = "close close"
 				}
 			}
 		}
@@ -108,7 +109,31 @@ func describeSync(n ast.Node) string {
 	if what == "" {
 		what = "?"
 	}
+	if !strings.Contains(what, " ") {
+		what += " -"
+	}
 	return what
+}
+
+// exprText renders a selector chain (b.cond.Broadcast) without spaces.
+func exprText(e ast.Expr) string {
+	switch v := e.(type) {
+	case *ast.Ident:
+		return v.Name
+	case *ast.SelectorExpr:
+		return exprText(v.X) + "." + v.Sel.Name
+	case *ast.CallExpr:
+		return exprText(v.Fun) + "()"
+	case *ast.ParenExpr:
+		return exprText(v.X)
+	case *ast.StarExpr:
+		return "*" + exprText(v.X)
+	case *ast.UnaryExpr:
+		return v.Op.String() + exprText(v.X)
+	case *ast.IndexExpr:
+		return exprText(v.X) + "[]"
+	}
+	return "_"
 }
 
 func (in *inst) point(pos token.Pos, what string) ast.Stmt {
